@@ -198,6 +198,14 @@ theorem C13_push_sites :
       "fill_context:recurse_child_tasks=False", "fill_context:with_contexts=True"]
     ∧ SS.Gen.pushShape = "try-yield-finally-restore" := by decide
 
+/-- The convenience spellings, re-read from the source on every run: every `extract(...)` call inside `extract_since`
+and `extract_until` (one per kind of `limit`) hands on both of its own option arguments, so what the call-tree theorems
+say about `extract` holds for these spellings with the options the caller gave. -/
+theorem C13_wrapper_sites :
+    SS.Gen.wrapperForward = ["extract_since:recurse_child_tasks=recurse_child_tasks,with_contexts=with_contexts",
+      "extract_until:recurse_child_tasks=recurse_child_tasks,with_contexts=with_contexts",
+      "extract_until:recurse_child_tasks=recurse_child_tasks,with_contexts=with_contexts"] := by decide
+
 /-! #### BaseExceptions: not contained by an extraction, options restored all the same -/
 
 /-- A hook that raises a BaseException ends the extraction it runs under (the remaining hooks do not run), and the
